@@ -413,3 +413,347 @@ func staticCalleesWithin(p *Program, fn *ssa.Function, depth int) []*ssa.Functio
 	walk(fn, depth)
 	return out
 }
+
+// savedValue: one place a saved value comes from — the value and the function
+// it is computed in.
+type savedValue struct {
+	v  ssa.Value
+	fn *ssa.Function
+}
+
+// traceSaved follows a value that is handed along — as a parameter, as a field
+// of a struct parameter or local, as a captured variable — back to where it is
+// computed.  Every call (or deferred call) of a function is followed, so the
+// result lists one origin per way the value can arrive; nil when a step cannot
+// be followed.
+func traceSaved(p *Program, fn *ssa.Function, v ssa.Value, depth int) []savedValue {
+	if depth > 6 || v == nil {
+		return nil
+	}
+	// the argument in position idx at every static call, defer or go of fn
+	argsAt := func(g *ssa.Function, idx int) ([]savedValue, bool) {
+		var out []savedValue
+		for _, h := range p.LibFns {
+			for _, b := range h.Blocks {
+				for _, ins := range b.Instrs {
+					cc := callOf(ins)
+					if cc == nil || cc.StaticCallee() != g || idx >= len(cc.Args) {
+						continue
+					}
+					out = append(out, savedValue{cc.Args[idx], h})
+				}
+			}
+		}
+		return out, len(out) > 0
+	}
+	paramIndex := func(prm *ssa.Parameter) int {
+		for i, q := range prm.Parent().Params {
+			if q == prm {
+				return i
+			}
+		}
+		return -1
+	}
+	// field k of a struct value x (in fn)
+	var fieldOfValue func(fn *ssa.Function, x ssa.Value, k int, depth int) []savedValue
+	fieldOfValue = func(fn *ssa.Function, x ssa.Value, k int, depth int) []savedValue {
+		if depth > 6 {
+			return nil
+		}
+		switch y := x.(type) {
+		case *ssa.Parameter:
+			args, ok := argsAt(y.Parent(), paramIndex(y))
+			if !ok {
+				return nil
+			}
+			var out []savedValue
+			for _, a := range args {
+				r := fieldOfValue(a.fn, a.v, k, depth+1)
+				if r == nil {
+					return nil
+				}
+				out = append(out, r...)
+			}
+			return out
+		case *ssa.UnOp:
+			if y.Op == token.MUL {
+				if al, ok := y.X.(*ssa.Alloc); ok {
+					// a local struct: the stores into its field k
+					var out []savedValue
+					for _, ref := range *al.Referrers() {
+						switch z := ref.(type) {
+						case *ssa.FieldAddr:
+							if z.Field != k {
+								continue
+							}
+							for _, r2 := range *z.Referrers() {
+								if st, ok := r2.(*ssa.Store); ok && st.Addr == ssa.Value(z) {
+									r := traceSaved(p, fn, st.Val, depth+1)
+									if r == nil {
+										return nil
+									}
+									out = append(out, r...)
+								}
+							}
+						case *ssa.Store:
+							if z.Addr == ssa.Value(al) {
+								r := fieldOfValue(fn, z.Val, k, depth+1)
+								if r == nil {
+									return nil
+								}
+								out = append(out, r...)
+							}
+						}
+					}
+					return out
+				}
+			}
+		}
+		return nil
+	}
+	switch x := v.(type) {
+	case *ssa.Parameter:
+		args, ok := argsAt(x.Parent(), paramIndex(x))
+		if !ok {
+			return nil
+		}
+		var out []savedValue
+		for _, a := range args {
+			r := traceSaved(p, a.fn, a.v, depth+1)
+			if r == nil {
+				return nil
+			}
+			out = append(out, r...)
+		}
+		return out
+	case *ssa.Field:
+		return fieldOfValue(fn, x.X, x.Field, depth+1)
+	case *ssa.UnOp:
+		if x.Op == token.MUL {
+			switch y := x.X.(type) {
+			case *ssa.FieldAddr:
+				// a field of a local struct or of a struct parameter spilled to memory
+				if al, ok := y.X.(*ssa.Alloc); ok {
+					// find what the whole struct is (a parameter stored into the
+					// local) or what was stored into the field
+					var out []savedValue
+					for _, ref := range *al.Referrers() {
+						switch z := ref.(type) {
+						case *ssa.Store:
+							if z.Addr == ssa.Value(al) {
+								r := fieldOfValue(fn, z.Val, y.Field, depth+1)
+								if r == nil {
+									return nil
+								}
+								out = append(out, r...)
+							}
+						case *ssa.FieldAddr:
+							if z.Field == y.Field && z != y {
+								for _, r2 := range *z.Referrers() {
+									if st, ok := r2.(*ssa.Store); ok && st.Addr == ssa.Value(z) {
+										r := traceSaved(p, fn, st.Val, depth+1)
+										if r == nil {
+											return nil
+										}
+										out = append(out, r...)
+									}
+								}
+							}
+						}
+					}
+					if len(out) > 0 {
+						return out
+					}
+				}
+			case *ssa.FreeVar:
+				// a captured variable: its binding in the enclosing function
+				idx := -1
+				for i, f := range fn.FreeVars {
+					if f == y {
+						idx = i
+					}
+				}
+				if par := fn.Parent(); par != nil && idx >= 0 {
+					for _, b := range par.Blocks {
+						for _, ins := range b.Instrs {
+							if mc, ok := ins.(*ssa.MakeClosure); ok && mc.Fn == ssa.Value(fn) && idx < len(mc.Bindings) {
+								if al, ok := mc.Bindings[idx].(*ssa.Alloc); ok {
+									var out []savedValue
+									for _, ref := range *al.Referrers() {
+										if st, ok := ref.(*ssa.Store); ok && st.Addr == ssa.Value(al) {
+											r := traceSaved(p, par, st.Val, depth+1)
+											if r == nil {
+												return nil
+											}
+											out = append(out, r...)
+										}
+									}
+									return out
+								}
+							}
+						}
+					}
+				}
+				return nil
+			case *ssa.Alloc:
+				var out []savedValue
+				for _, ref := range *y.Referrers() {
+					if st, ok := ref.(*ssa.Store); ok && st.Addr == ssa.Value(y) {
+						r := traceSaved(p, fn, st.Val, depth+1)
+						if r == nil {
+							return nil
+						}
+						out = append(out, r...)
+					}
+				}
+				if len(out) > 0 {
+					return out
+				}
+			}
+		}
+	}
+	return []savedValue{{v, fn}}
+}
+
+// binopView: where the dispatch over the operand types of a binary operation
+// is written, and which of its variables hold the left and the right operand.
+// The dispatcher pops its operands (right first) and decides in a tagless
+// switch; when the switch has been moved into a function that is handed the
+// popped operands, the view is that function with its parameters in the roles
+// the dispatcher gives them.
+type binopViewT struct {
+	fn       *ssa.Function
+	fd       *ast.FuncDecl
+	info     *types.Info
+	opObj    types.Object
+	leftObj  types.Object
+	rightObj types.Object
+}
+
+func binopView(p *Program, a *anchors) *binopViewT {
+	fd := p.FuncDecl(a.binop)
+	info := p.Info(a.binop)
+	if fd == nil || info == nil {
+		return nil
+	}
+	v := &binopViewT{fn: a.binop, fd: fd, info: info, opObj: a.binop.Signature.Params().At(0)}
+	var popped []types.Object
+	ast.Inspect(fd.Body, func(n ast.Node) bool {
+		as, ok := n.(*ast.AssignStmt)
+		if !ok || len(as.Rhs) != 1 || len(as.Lhs) < 1 {
+			return true
+		}
+		if ce, ok := as.Rhs[0].(*ast.CallExpr); ok {
+			if f, ok := calleeObj(info, ce).(*types.Func); ok && f.Name() == "Pop" {
+				if id, ok := as.Lhs[0].(*ast.Ident); ok {
+					if o := info.ObjectOf(id); o != nil {
+						popped = append(popped, o)
+					}
+				}
+			}
+		}
+		return true
+	})
+	if len(popped) >= 2 {
+		v.rightObj, v.leftObj = popped[0], popped[1]
+	}
+	hasSwitch := false
+	ast.Inspect(fd.Body, func(n ast.Node) bool {
+		if s, ok := n.(*ast.SwitchStmt); ok && s.Tag == nil {
+			hasSwitch = true
+		}
+		return true
+	})
+	if hasSwitch || len(popped) < 2 {
+		return v
+	}
+	// handed on: a call g(…op…, …left…, …right…) of a module function that has
+	// the tagless switch
+	var moved *binopViewT
+	ast.Inspect(fd.Body, func(n ast.Node) bool {
+		ce, ok := n.(*ast.CallExpr)
+		if !ok || moved != nil {
+			return true
+		}
+		f, ok := calleeObj(info, ce).(*types.Func)
+		if !ok || f.Pkg() == nil || f.Pkg().Path() != Mod+"/vm" {
+			return true
+		}
+		var g *ssa.Function
+		for _, fn := range p.LibFns {
+			if fn.Object() == types.Object(f) {
+				g = fn
+			}
+		}
+		if g == nil || p.FuncDecl(g) == nil {
+			return true
+		}
+		gfd := p.FuncDecl(g)
+		sw := false
+		ast.Inspect(gfd.Body, func(m ast.Node) bool {
+			if s, ok := m.(*ast.SwitchStmt); ok && s.Tag == nil {
+				sw = true
+			}
+			return true
+		})
+		if !sw {
+			return true
+		}
+		sig := f.Type().(*types.Signature)
+		mv := &binopViewT{fn: g, fd: gfd, info: p.Info(g)}
+		for i, arg := range ce.Args {
+			id, ok := ast.Unparen(arg).(*ast.Ident)
+			if !ok || i >= sig.Params().Len() {
+				continue
+			}
+			switch info.ObjectOf(id) {
+			case v.opObj:
+				mv.opObj = sig.Params().At(i)
+			case v.leftObj:
+				mv.leftObj = sig.Params().At(i)
+			case v.rightObj:
+				mv.rightObj = sig.Params().At(i)
+			}
+		}
+		if mv.opObj != nil && mv.leftObj != nil && mv.rightObj != nil {
+			moved = mv
+		}
+		return true
+	})
+	if moved != nil {
+		return moved
+	}
+	return v
+}
+
+// callbackBody: the body and the signature of a function literal, or of a
+// declared function or method, found at n (nil otherwise).  A walker callback
+// may be written either way.
+func callbackBody(info *types.Info, n ast.Node) (*ast.BlockStmt, *types.Signature) {
+	switch x := n.(type) {
+	case *ast.FuncLit:
+		if sig, ok := info.Types[x].Type.(*types.Signature); ok {
+			return x.Body, sig
+		}
+	case *ast.FuncDecl:
+		if x.Body == nil {
+			return nil, nil
+		}
+		if obj, ok := info.Defs[x.Name].(*types.Func); ok {
+			return x.Body, obj.Type().(*types.Signature)
+		}
+	}
+	return nil, nil
+}
+
+// lhsObject: the variable an assignment's left-hand side names: a local or
+// captured variable (identifier) or a field (selector).
+func lhsObject(info *types.Info, e ast.Expr) types.Object {
+	switch x := ast.Unparen(e).(type) {
+	case *ast.Ident:
+		return info.ObjectOf(x)
+	case *ast.SelectorExpr:
+		return info.Uses[x.Sel]
+	}
+	return nil
+}
